@@ -83,6 +83,13 @@ def _strategy(draw):
                       + " " + " ".join(repr(float(p)) for p in params)]
             restraints.append({"kind": shape, "mol": name, "lo": lo, "hi": hi, "resname": resname, "r0": r0, "r1": r1,
                                "inout": inout, "centre": centre, "params": params})
+        if draw(st.booleans()):
+            # the walk starts at a residue named with -start: its own restraints hold for the start placement too
+            ridx = draw(st.integers(0, nres - 1))
+            spec_text = f"{name}-{mt['residues'][ridx]['resname']}#{ridx + 1}"
+            if draw(st.booleans()):
+                spec_text = f"{name}#{draw(st.integers(lo, hi - 1))}-{mt['residues'][ridx]['resname']}#{ridx + 1}"
+            opts["start"] = [spec_text]
     elif kind == "cone":
         build += ["[ molecule ]", f"{name} {lo} {hi}"]
         resname = draw(st.sampled_from(sorted({r["resname"] for r in mt["residues"]})))
